@@ -1061,6 +1061,11 @@ class AnsiString:
                     key == shift
                     and incoming_add
                     and self._fmts[key].rem[:len(incoming_add)] == incoming_add
+                    # ...and those settings must have the same order of precedence at my end as in the added string
+                    and [
+                        x for x in self.ansi_settings_at(shift - 1)
+                        if __class__._find_setting_reference(x, self._fmts[key].rem[:len(incoming_add)]) >= 0
+                    ] == incoming_add
                 ):
                     # Special case - the string being added contains same formatting as end of my string.
                     # Because the settings work based on references instead of values, the settings not only
